@@ -5,6 +5,7 @@ package zzverif
 // with the solver's values for the nondeterministic inputs (scenario file).
 
 import (
+	"runtime/debug"
 	"encoding/hex"
 	"encoding/json"
 	"fmt"
@@ -72,6 +73,7 @@ type Result struct {
 	Covers       []string `json:"covers"`
 	AssumeFailed string   `json:"assume_failed,omitempty"`
 	Panic        string   `json:"panic,omitempty"`
+	Stack        string   `json:"stack,omitempty"`
 	MissingInputs []string `json:"missing_inputs,omitempty"`
 }
 
@@ -126,6 +128,7 @@ func RunScenario(path string, harnesses map[string]func()) Result {
 					return
 				}
 				res.Panic = fmt.Sprint(r)
+				res.Stack = string(debug.Stack())
 			}
 		}()
 		f()
@@ -262,6 +265,8 @@ func IsLowerASCII(s string) bool {
 	return true
 }
 
+func Deref(p interface{}) interface{} { return reflect.Indirect(reflect.ValueOf(p)).Interface() }
+
 func Assume(b bool) {
 	if !b {
 		panic(assumeFailed{"assumption does not hold on the replayed values"})
@@ -299,7 +304,7 @@ func snap() snapshot {
 		m := map[string][]byte{}
 		it := st.Iterator(nil, nil)
 		for ; it.Valid(); it.Next() {
-			m[string(it.Key())] = append([]byte(nil), it.Value()...)
+			m[string(it.Key())] = append([]byte{}, it.Value()...)
 		}
 		it.Close()
 		s.stores[n] = m
